@@ -1359,6 +1359,161 @@ theorem healCeiling_zero (decay : Rat) : healCeiling decay 0 = 1 := by
   simp
   grind
 
+/-! ### the healing loop over an instance with callbacks -/
+
+/-- without callbacks `fold_enhanced` with callbacks is `fold_enhanced` -/
+theorem foldXH_absent (env : Env J S C) (cfg : Cfg) (st : Stats) (raw : Text) (call : List Strategy) :
+    ∃ st' x, foldX env cfg st raw call = ⟨(foldX env cfg st raw call).trace, .ok (st', x)⟩ ∧
+      foldXH env Hooks.absent cfg st raw call = ⟨st', [], (foldX env cfg st raw call).trace, .ok x⟩ := by
+  obtain ⟨tr, st', p, x, hp, hx, _, h1, h2, h3, h4, hcase⟩ :=
+    foldHBoth_spec env Hooks.absent cfg st raw raw call (Or.inl ⟨rfl, rfl⟩)
+  have hxr : x.raw = raw := by
+    rcases foldBoth_spec env cfg st raw call with ⟨tr', _, hx', _⟩ | ⟨tpre, pre, s, post, x', _, _, _, _, hx', _⟩
+    · rw [hx] at hx'; simp at hx'; obtain ⟨_, _, rfl⟩ := hx'; rfl
+    · rw [hx] at hx'; simp at hx'; obtain ⟨_, _, rfl⟩ := hx'; rfl
+  have hxe : x.echo raw = x := by cases x; simp [FoldedX.echo] at hxr ⊢; exact hxr.symm
+  have hres : (foldXH env Hooks.absent cfg st raw call).hooks = [] ∧
+      (foldXH env Hooks.absent cfg st raw call).res = .ok x := by
+    rcases hcase with ⟨_, _, b, _, d⟩ | ⟨_, _, ⟨_, _, b, _, d⟩ | ⟨g, hg, _⟩⟩
+    · rw [hxe] at d; exact ⟨b, d⟩
+    · rw [hxe] at d; exact ⟨b, d⟩
+    · cases hg
+  obtain ⟨b, d⟩ := hres
+  refine ⟨st', x, by rw [hx], ?_⟩
+  rw [hx]
+  cases hf : foldXH env Hooks.absent cfg st raw call
+  rw [hf] at h2 h4 b d; simp at h2 h4 b d; subst h2 h4 b d; rfl
+
+/-- The loop over an instance without callbacks is the loop of the section above (same result, same counters, same
+    library calls, no callback invoked). -/
+theorem healHFrom_absent (env : Env J S C) (cfg : Cfg) (decay : Rat) (gen : Nat → Text) :
+    ∀ (fuel k : Nat) (st : Stats) (atts : List HealAtt) (hs : List (HookCall S C)) (tr : Tr J S C),
+    ∃ st' h, (healFrom env cfg decay gen fuel k st atts).res = .ok (st', h) ∧
+      healHFrom env Hooks.absent cfg decay gen fuel k st atts hs tr =
+        ⟨st', hs, tr ++ (healFrom env cfg decay gen fuel k st atts).trace, .ok h⟩ := by
+  intro fuel
+  induction fuel with
+  | zero => intro k st atts hs tr; exact ⟨st, _, rfl, by simp [healHFrom, healFrom, pure, W.pure]⟩
+  | succ fuel ih =>
+    intro k st atts hs tr
+    obtain ⟨st1, x, hx, hxh⟩ := foldXH_absent env cfg st (gen k) []
+    unfold healHFrom healFrom
+    rw [hxh]
+    by_cases hv : x.valid = true
+    · refine ⟨st1, ⟨if k = 0 then .validFirstTry else .healed,
+          some ⟨x.valid, x.struct, x.raw, x.err, x.attempts, ratMin x.confidence (healCeiling decay k), x.coercions,
+            x.strategyUsed⟩,
+          atts ++ [⟨k, true, healCeiling decay k⟩], ratMin x.confidence (healCeiling decay k), false⟩, ?_, ?_⟩
+      · rw [hx]; simp [bind, W.bind, hv, pure, W.pure]
+      · rw [hx]; simp [bind, W.bind, hv, pure, W.pure]
+    · obtain ⟨st', h, hres, heq⟩ := ih (k + 1) st1 (atts ++ [⟨k, false, 0⟩]) (hs ++ []) (tr ++ (foldX env cfg st (gen k) []).trace)
+      refine ⟨st', h, ?_, ?_⟩
+      · rw [hx]; simp [bind, W.bind, hv, hres]
+      · rw [hx]; simp [bind, W.bind, hv]
+        simp at heq
+        rw [heq]
+
+/-- Complete description of the healing loop over an instance with callbacks: every attempt misfolded (degraded,
+    nothing returned), or the result is the first valid `fold_enhanced` report (attempt `j`, confidence capped by the
+    ceiling of that attempt), or an exception left `fold_enhanced` at some attempt `j` and that exception leaves `heal`. -/
+theorem healHFrom_spec (env : Env J S C) (hk : Hooks S C) (cfg : Cfg) (decay : Rat) (gen : Nat → Text) :
+    ∀ (fuel k : Nat) (st : Stats) (atts : List HealAtt) (hs : List (HookCall S C)) (tr : Tr J S C),
+    (∃ h, (healHFrom env hk cfg decay gen fuel k st atts hs tr).res = .ok h ∧
+        h.outcome = .degraded ∧ h.folded = none ∧ h.finalConfidence = 0 ∧ h.tagged = true ∧
+        h.attempts = atts ++ failedAtts k fuel) ∨
+    (∃ h j stj r, (healHFrom env hk cfg decay gen fuel k st atts hs tr).res = .ok h ∧ k ≤ j ∧ j < k + fuel ∧
+        (foldXH env hk cfg stj (gen j) []).res = .ok r ∧ r.valid = true ∧
+        h.folded = some (healedFold decay j r) ∧
+        h.finalConfidence = ratMin r.confidence (healCeiling decay j) ∧ h.tagged = false ∧
+        h.outcome = (if j = 0 then .validFirstTry else .healed) ∧
+        h.attempts = atts ++ failedAtts k (j - k) ++ [⟨j, true, healCeiling decay j⟩]) ∨
+    (∃ e j stj, (healHFrom env hk cfg decay gen fuel k st atts hs tr).res = .raise e ∧ k ≤ j ∧ j < k + fuel ∧
+        (foldXH env hk cfg stj (gen j) []).res = .raise e) := by
+  intro fuel
+  induction fuel with
+  | zero =>
+    intro k st atts hs tr
+    exact Or.inl ⟨_, rfl, rfl, rfl, rfl, rfl, by simp [failedAtts]⟩
+  | succ fuel ih =>
+    intro k st atts hs tr
+    unfold healHFrom
+    rcases hx : foldXH env hk cfg st (gen k) [] with ⟨st1, hs1, tr1, res⟩
+    cases res with
+    | raise e =>
+      exact Or.inr (Or.inr ⟨e, k, st, rfl, Nat.le_refl _, by omega, by rw [hx]⟩)
+    | ok r =>
+      by_cases hv : r.valid = true
+      · refine Or.inr (Or.inl ⟨_, k, st, r, by simp [hv]; rfl, Nat.le_refl _, by omega, by rw [hx], hv, by simp [healedFold, hv], rfl, rfl, rfl, ?_⟩)
+        simp [failedAtts]
+      · simp only [hv]
+        rcases ih (k + 1) st1 (atts ++ [⟨k, false, 0⟩]) (hs ++ hs1) (tr ++ tr1) with
+          ⟨h, h0, h1, h2, h3, h4, h5⟩ | ⟨h, j, stj, r', h0, hkj, hjf, hfold, hrv, h2, h3, h4, h5, h6⟩ |
+          ⟨e, j, stj, h0, hkj, hjf, hfold⟩
+        · refine Or.inl ⟨h, by simpa using h0, h1, h2, h3, h4, ?_⟩
+          rw [h5]
+          simp [failedAtts, List.range'_succ]
+        · refine Or.inr (Or.inl ⟨h, j, stj, r', by simpa using h0, by omega, by omega, hfold, hrv, h2, h3, h4, h5, ?_⟩)
+          rw [h6]
+          have hjk : j - k = (j - (k + 1)) + 1 := by omega
+          rw [hjk]
+          simp [failedAtts, List.range'_succ]
+        · exact Or.inr (Or.inr ⟨e, j, stj, by simpa using h0, by omega, by omega, hfold⟩)
+
+/-! ### `fold_enhanced` with callbacks does not depend on the counters -/
+
+/-- the callbacks `fold_enhanced` invokes, given the text fed and the report `x` of the fold on that text -/
+def xhHooks (hk : Hooks S C) (raw t : Text) (x : FoldedX S C) : List (HookCall S C) :=
+  preHooks hk raw t ++
+    (if x.valid then [] else
+      match hk.onMisfold with
+      | none => []
+      | some g => [.misfold (x.echo raw) (g (x.echo raw))])
+
+/-- what `fold_enhanced` returns / raises, given the report `x` of the fold on the text fed -/
+def xhRes (hk : Hooks S C) (raw : Text) (x : FoldedX S C) : Res (FoldedX S C) :=
+  if x.valid then .ok (x.echo raw) else
+    match hk.onMisfold with
+    | none => .ok (x.echo raw)
+    | some g => match g (x.echo raw) with | .ok _ => .ok (x.echo raw) | .raise e => .raise e
+
+theorem foldXH_determined (env : Env J S C) (hk : Hooks S C) (cfg : Cfg) (st : Stats) (raw t : Text)
+    (call : List Strategy) (hfeeds : hk.Feeds raw t) :
+    ∃ st' x, foldX env cfg st t call = ⟨(foldX env cfg st t call).trace, .ok (st', x)⟩ ∧
+      (foldXH env hk cfg st raw call).stats = st' ∧
+      (foldXH env hk cfg st raw call).trace = (foldX env cfg st t call).trace ∧
+      (foldXH env hk cfg st raw call).hooks = xhHooks hk raw t x ∧
+      (foldXH env hk cfg st raw call).res = xhRes hk raw x := by
+  obtain ⟨tr, st', p, x, hp, hx, _, h1, h2, h3, h4, hcase⟩ := foldHBoth_spec env hk cfg st raw t call hfeeds
+  refine ⟨st', x, by rw [hx], h2, by rw [h4, hx], ?_, ?_⟩
+  · rcases hcase with ⟨hv, _, b, _, _⟩ | ⟨hv, _, ⟨hn, _, b, _, _⟩ | ⟨g, hg, _, b, _, _⟩⟩
+    · rw [b]; simp [xhHooks, hv]
+    · rw [b]; simp [xhHooks, hv, hn]
+    · rw [b]; simp [xhHooks, hv, hg]
+  · rcases hcase with ⟨hv, _, _, _, d⟩ | ⟨hv, _, ⟨hn, _, _, _, d⟩ | ⟨g, hg, _, _, _, d⟩⟩
+    · rw [d]; simp [xhRes, hv]
+    · rw [d]; simp [xhRes, hv, hn]
+    · rw [d]; simp [xhRes, hv, hg]
+
+/-- `fold_enhanced` on an instance with callbacks: the callbacks invoked, the library calls made and the report
+    (or the exception) do not depend on the counters. -/
+theorem foldXH_counters_irrelevant (env : Env J S C) (hk : Hooks S C) (cfg : Cfg) (st st' : Stats) (raw : Text)
+    (call : List Strategy) :
+    (foldXH env hk cfg st raw call).hooks = (foldXH env hk cfg st' raw call).hooks ∧
+    (foldXH env hk cfg st raw call).trace = (foldXH env hk cfg st' raw call).trace ∧
+    (foldXH env hk cfg st raw call).res = (foldXH env hk cfg st' raw call).res := by
+  rcases foldH_cases env hk cfg st raw call with ⟨f, e, hp, hr, _, hXH⟩ | ⟨t, hfeeds, _, _⟩
+  · rcases foldH_cases env hk cfg st' raw call with ⟨f', e', hp', hr', _, hXH'⟩ | ⟨t', hfeeds', _, _⟩
+    · rw [hp] at hp'; cases hp'; rw [hr] at hr'; cases hr'
+      rw [hXH, hXH']; exact ⟨rfl, rfl, rfl⟩
+    · exact absurd hr (hfeeds'.not_raise f e hp)
+  · obtain ⟨s1, x, hx, _, htr, hh, hres⟩ := foldXH_determined env hk cfg st raw t call hfeeds
+    obtain ⟨s1', x', hx', _, htr', hh', hres'⟩ := foldXH_determined env hk cfg st' raw t call hfeeds
+    obtain ⟨k1, k2⟩ := foldX_counters_irrelevant env cfg cfg st st' t call call rfl
+    have hxx : x = x' := by
+      rw [hx, hx'] at k2; simpa [Res.map] using k2
+    subst hxx
+    exact ⟨by rw [hh, hh'], by rw [htr, htr', k1], by rw [hres, hres']⟩
+
 /-! ### the coercion helper -/
 
 section Coercion
